@@ -156,6 +156,9 @@ def constructed(rng):
     for c in lg:
         for d in rng.sample(lg, 5):
             dd(c * rng.choice((1, -1)), rng.randrange(0, 19), d * rng.choice((1, -1)), rng.randrange(0, 19))
+    # 5b''. wide products whose cut-off digits are a tie (or zero) plus a non-zero multiple of 2^32 / 2^64 / 2^96
+    for x_, a_, y_, b_, n_ in C.wide_tie_word_products(rng, 18):
+        dd(x_ * rng.choice((1, -1)), a_, y_, b_)
     # 5c. operands at floor(T / 10^k) +- 2 for every primitive-type maximum T
     for x, y in G.threshold_pairs(rng)[::3]:
         dd(x[0], x[1], y[0], y[1])
